@@ -35,6 +35,7 @@ type Gen struct {
 	Staked  map[int]bool
 	nameSeq int
 	Kinds   []string // enabled kinds
+	MaxAcct int      // the generator only uses accounts [0,MaxAcct) (0 = all)
 }
 
 type Contract struct {
@@ -49,7 +50,13 @@ func NewGen(w *World, r *rand.Rand) *Gen {
 
 func (g *Gen) acct(i int) *Acct { return g.W.Accts[i] }
 
-func (g *Gen) pick() int { return g.R.Intn(len(g.W.Accts)) }
+func (g *Gen) pick() int {
+	n := len(g.W.Accts)
+	if g.MaxAcct > 0 && g.MaxAcct < n {
+		n = g.MaxAcct
+	}
+	return g.R.Intn(n)
+}
 
 func aergo(n int64) *big.Int { return new(big.Int).Mul(big.NewInt(n), Aergo) }
 
@@ -365,7 +372,7 @@ func (g *Gen) Applied(cands []*GTx, included [][]byte, statuses []string) {
 
 // Clone copies the generator state (for a branch forking off) with a new PRNG.
 func (g *Gen) Clone(r *rand.Rand) *Gen {
-	n := &Gen{W: g.W, R: r, Nonce: map[int]uint64{}, NameOwner: map[string]int{}, Staked: map[int]bool{}, nameSeq: g.nameSeq, Kinds: g.Kinds}
+	n := &Gen{W: g.W, R: r, Nonce: map[int]uint64{}, NameOwner: map[string]int{}, Staked: map[int]bool{}, nameSeq: g.nameSeq, Kinds: g.Kinds, MaxAcct: g.MaxAcct}
 	for k, v := range g.Nonce {
 		n.Nonce[k] = v
 	}
